@@ -5,7 +5,7 @@
 #include "seginv.h"
 
 struct ShapeParams {
-    float ppm = 0;                 // 0 => font = NULL
+    float ppm = 0;                 // 0 => font = NULL, < 0 => hinted font (make_any_font)
     uint32_t script = 0;
     int enc = 4;                   // 1,2,4
     int dir = 0;
@@ -31,6 +31,27 @@ struct ShapeResult {
     int feat_set_fail = 0;
 };
 
+// Fonts.  ppm > 0: gr_make_font (unhinted).  ppm < 0: a HINTED font of size |ppm| whose advances come from a pure client
+// callback with fractional values (odd integer part: gr_make_font_with_ops, even: the deprecated gr_make_font_with_advance_fn).
+struct HintCtx { float ppm; };
+inline float hint_adv(const void *h, uint16_t gid) { const HintCtx *c = static_cast<const HintCtx *>(h); return c->ppm * 0.45f + 0.37f * float(gid % 7) + 0.21f; }
+inline std::map<const gr_font *, HintCtx *> &hint_registry() { static auto *m = new std::map<const gr_font *, HintCtx *>; return *m; }
+inline gr_font *make_any_font(float ppm, const gr_face *face) {
+    if (!(ppm < 0)) return gr_make_font(ppm, face);
+    HintCtx *c = new HintCtx{-ppm};
+    gr_font *f;
+    if (int(-ppm) & 1) { gr_font_ops ops = {sizeof(gr_font_ops), hint_adv, nullptr}; f = gr_make_font_with_ops(-ppm, c, &ops, face); }
+    else f = gr_make_font_with_advance_fn(-ppm, c, hint_adv, face);
+    if (f) hint_registry()[f] = c; else delete c;
+    return f;
+}
+inline void destroy_any_font(gr_font *f) {
+    if (!f) return;
+    gr_font_destroy(f);
+    auto it = hint_registry().find(f);
+    if (it != hint_registry().end()) { delete it->second; hint_registry().erase(it); }
+}
+
 // ext_font / ext_fv: objects owned by the caller (history scenarios); keep: hand the segment to the caller instead of destroying it
 inline void run_shape(const gr_face *face, const ShapeParams &sp, ShapeResult &r, const gr_font *ext_font = nullptr, bool use_ext_font = false,
                       const gr_feature_val *ext_fv = nullptr, gr_segment **keep = nullptr) {
@@ -53,7 +74,7 @@ inline void run_shape(const gr_face *face, const ShapeParams &sp, ShapeResult &r
     }
     if (sp.nul_terminate || truncated_tail) tb.insert(tb.end(), usz, 0);
     Exact buf(tb);
-    gr_font *own_font = (!use_ext_font && sp.ppm > 0) ? gr_make_font(sp.ppm, face) : nullptr;
+    gr_font *own_font = (!use_ext_font && sp.ppm != 0) ? make_any_font(sp.ppm, face) : nullptr;
     const gr_font *font = use_ext_font ? ext_font : own_font;
     gr_feature_val *fv = nullptr;
     if (!ext_fv && (sp.use_lang || !sp.feats.empty())) {
@@ -79,7 +100,7 @@ inline void run_shape(const gr_face *face, const ShapeParams &sp, ShapeResult &r
         if (keep) *keep = seg; else gr_seg_destroy(seg);
     }
     if (fv) gr_featureval_destroy(fv);
-    if (own_font) gr_font_destroy(own_font);
+    if (own_font) destroy_any_font(own_font);
 }
 
 inline ShapeParams read_shape_params(Reader &rd) {
